@@ -114,16 +114,30 @@ register(Contract(
     modifies=["g_errors", "g_outputs"],
 ))
 
+_abs = z3.Function("fs_abspath", z3.IntSort(), z3.IntSort())
+
+
+@spec_fn("abs_path")
+def abs_path(ex, st, args):
+    """the absolute path a path string denotes (os.path.abspath): a function of the string and the fixed working directory"""
+    from pyvc.sym import Val, TH
+    return Val(V.S(_abs(V.s(args[0].z))), th=TH("str"))
+
+
+ABSPATH = Assumed("os.path.abspath", params=["path"], returns="str", pure=True, ensures=["result == abs_path(path)"],
+                  why="os.path.abspath: normalised absolute form of the path (the working directory does not change during discovery)")
+
 register(Contract(
     key=AFS + "determine_files_to_scan", properties=P,
     ghost={"g_errors": "int", "g_outputs": "int", "g_globbed": "Set[str]"},
     requires=["is_empty(g_globbed)"],
-    calls={"handle_error": HANDLE_ERROR, "glob.glob": "glob.glob",
+    calls={"handle_error": HANDLE_ERROR, "glob.glob": "glob.glob", "os.path.abspath": ABSPATH,
            "ApplicationFileScanner.__process_next_path": AFS + "__process_next_path",
            "ApplicationFileScanner.__handle_main_list_files": AFS + "__handle_main_list_files"},
     ensures=[
-        # each file once, in sorted order
+        # each file once -- however it is spelled (a.md, ./a.md, an absolute path) --, in sorted order
         "forall(lambda a, b: implies(a < b, result[0][a] != result[0][b] and not (result[0][b] < result[0][a])), 0, len(result[0]))",
+        "forall(lambda a, b: implies(a < b, abs_path(result[0][a]) != abs_path(result[0][b])), 0, len(result[0]))",
         # only arguments that contain * or ? are glob-expanded (the user guide's rule); a name with other characters is a literal path
         "forall_val(lambda x: implies(x in g_globbed, " + IS_GLOB.format(p="x") + "))",
         # an argument in error is reported, and is the only way to get the error flag
@@ -135,5 +149,16 @@ register(Contract(
         "forall_val(lambda x: implies(x in g_globbed, " + IS_GLOB.format(p="x") + "))",
         "implies(did_error_scanning_files, g_errors > old(g_errors))", "g_errors >= old(g_errors)",
         "not did_error_scanning_files",   # an error leaves the loop at once (break): nothing after the bad argument is looked at
-    ]), 1: Loop(invariant=["g_errors >= old(g_errors)"])},
+    ]), 1: Loop(invariant=["g_errors >= old(g_errors)"]),
+        2: Loop(index="idx", seq_name="sf", invariant=[
+            "forall(lambda a, b: implies(a < b, sorted_files_to_parse[a] != sorted_files_to_parse[b] and "
+            "not (sorted_files_to_parse[b] < sorted_files_to_parse[a]) and abs_path(sorted_files_to_parse[a]) != abs_path(sorted_files_to_parse[b])), "
+            "0, len(sorted_files_to_parse))",
+            "forall(lambda a: abs_path(sorted_files_to_parse[a]) in absolute_paths_seen, 0, len(sorted_files_to_parse))",
+            # everything kept so far sorts strictly before everything still to come
+            "forall(lambda a: forall(lambda j: sorted_files_to_parse[a] != sf[j] and not (sf[j] < sorted_files_to_parse[a]), idx, len(sf)), 0, len(sorted_files_to_parse))",
+            "g_errors >= old(g_errors)", "implies(did_error_scanning_files, g_errors > old(g_errors))",
+            "forall_val(lambda x: implies(x in g_globbed, " + IS_GLOB.format(p="x") + "))",
+            "sorted_files_to_parse is not sf",
+        ])},
 ))
